@@ -165,7 +165,7 @@ pub fn eval_from_bytes_bitcoin(bytes: &[u8], version_id: u8) -> EvaluatedScript 
         EvaluatedScript::new(address, ScriptPattern::Pay2Taproot)
     } else if script.is_witness_program() {
         EvaluatedScript::new(address, ScriptPattern::WitnessProgram)
-    } else if script.is_multisig() {
+    } else if is_multisig(script) {
         EvaluatedScript::new(address, ScriptPattern::Pay2MultiSig)
     } else {
         EvaluatedScript::new(address, ScriptPattern::NotRecognised)
@@ -201,6 +201,53 @@ fn p2pk_to_string(script: &Script, network: Network) -> Option<String> {
         network,
     );
     Some(address.to_string())
+}
+
+/// Checks whether a script is a bare multisig output:
+/// OP_m <n pushes> OP_n OP_CHECKMULTISIG with 1 <= m <= n <= 16.
+/// `Script::is_multisig` counts the pushes in a u8 (which overflows for scripts with more than
+/// 255 pushes) and accepts any opcode in place of OP_n, so it is not used here.
+fn is_multisig(script: &Script) -> bool {
+    let mut instructions = script.instructions();
+    let required_sigs = match instructions.next() {
+        Some(Ok(Instruction::Op(op))) => match decode_pushnum(op) {
+            Some(pushnum) => pushnum,
+            None => return false,
+        },
+        _ => return false,
+    };
+
+    let mut num_pubkeys: usize = 0;
+    loop {
+        match instructions.next() {
+            Some(Ok(Instruction::PushBytes(_))) => num_pubkeys += 1,
+            Some(Ok(Instruction::Op(op))) => match decode_pushnum(op) {
+                Some(pushnum) if pushnum == num_pubkeys => break,
+                _ => return false,
+            },
+            _ => return false,
+        }
+    }
+
+    if required_sigs > num_pubkeys {
+        return false;
+    }
+    match instructions.next() {
+        Some(Ok(Instruction::Op(op))) if op == opcodes::all::OP_CHECKMULTISIG => {}
+        _ => return false,
+    }
+    instructions.next().is_none()
+}
+
+/// Decodes OP_1 .. OP_16 to the number they push
+#[inline]
+fn decode_pushnum(op: Opcode) -> Option<usize> {
+    let first = opcodes::all::OP_PUSHNUM_1.to_u8();
+    let last = opcodes::all::OP_PUSHNUM_16.to_u8();
+    match op.to_u8() {
+        code if (first..=last).contains(&code) => Some(usize::from(code - first) + 1),
+        _ => None,
+    }
 }
 
 /// Checks whether a script is trivially known to have no satisfying input.
